@@ -18,7 +18,7 @@ from harness.common import sexp
 from harness.common.ctx import Timeout, time_limit
 
 EXE = "c05_model"
-LEAN_MODULES = ["Holpy.C05.Props", "Holpy.C05.PropsNorm", "Holpy.C05.PropsInterval"]
+LEAN_MODULES = ["Holpy.C05.Props", "Holpy.C05.PropsNorm", "Holpy.C05.PropsInterval", "Holpy.C05.PropsConstIneq"]
 
 # ---------------------------------------------------------------------------------------------
 # 1. macro table (Gen.lean)
@@ -2238,6 +2238,48 @@ class FakeIvContext:
         return self._prim("cos", x)
 
 
+def const_inequality_full_stream(ctx, goal_trees):
+    """const_inequality through the real check_proof with the injected interval context, against the full
+    model `acceptConstInequality (tablePrims …)`: same verdict and same asserted statement."""
+    import mpmath
+    real_iv = mpmath.iv
+    lines, impl = [], []
+    for tree in goal_trees:
+        try:
+            goal = build(tree)
+        except Exception:  # noqa
+            continue
+        fake = FakeIvContext(real_iv)
+        mpmath.iv = fake
+        try:
+            res = run_check("const_inequality", goal)
+        finally:
+            mpmath.iv = real_iv
+        rows = " ".join("(%s %s)" % (c[0], q4(*c[1:])) for c in dict.fromkeys(fake.calls))
+        lines.append("(cineq %s (%s) (%s))" % (wire_str(to_wire(goal, {})), rows, q4(fake.pi_iv.a, fake.pi_iv.b)))
+        impl.append((tree, goal, res))
+    out = ctx.lean_driver(EXE, lines) if lines else []
+    if out is None:
+        return
+    nd = 0
+    for (tree, goal, res), o in zip(impl, out):
+        ctx.case(("cineq-full", tree), nontrivial=res[0] == "ok")
+        ctx.count("cineq-full:%s" % res[0])
+        if res[0] == "timeout":
+            continue
+        m = sexp.loads(o)
+        mm = ("ok", sexp.dumps(m[1])) if m[0] == "ok" else ("rej",)
+        if res[0] == "ok":
+            ii = ("ok", wire_str(to_wire(res[1].prop, {}))) if len(res[1].hyps) == 0 else ("ok-with-hyps",)
+        else:
+            ii = ("rej",)
+        if ii != mm:
+            nd += 1
+            if nd <= 3:
+                ctx.broken("correspondence:c05:const_inequality-full", "goal=%s impl=%s model=%s" % (safe_str(goal), ii[0], o[:160]))
+                ctx.coverage["disagreements_checked"] += 1
+
+
 def q4(*qs):
     return " ".join("%d %d" % (Fraction(q).numerator, Fraction(q).denominator) for q in qs)
 
@@ -2429,6 +2471,14 @@ def run(ctx):
     rng_iv = ctx.rng("interval-eval")
     iv_trees += [gen_sized_expr_irr(rng_iv, rng_iv.choice([1, 2, 3])) for _ in range(ctx.scale(150, 1500))]
     interval_eval_stream(ctx, iv_trees)
+    cg = [g for g in directed_goals()] + [ne_goal_tree(c) for c in near_equal_cases(ctx)[:144]]
+    rng_cg = ctx.rng("cineq-full")
+    for _ in range(ctx.scale(250, 2500)):
+        a = gen_sized_expr_irr(rng_cg, rng_cg.choice([1, 2]))
+        b = a if rng_cg.random() < 0.15 else gen_sized_expr_irr(rng_cg, rng_cg.choice([0, 1, 2]))
+        rel = rng_cg.choice(["eq", "lt", "le", "gt", "ge", "ne"])
+        cg.append(["neg", ["eq", "real", a, b]] if rel == "ne" else [rel, "real", a, b])
+    const_inequality_full_stream(ctx, cg)
     ctx.log("theory-function stream done: %d applications, %d const_inequality goals" % n_tf)
     ctx.log("near-equal stream (%d cases) and interval-decision stream done" % len(ne_cases))
     # random ground goals
@@ -2518,27 +2568,28 @@ MANIFEST = {
     "text": "Lean theorems about an executable model (of the fixed code) of nat_eval/int_eval/real_eval and of the eval methods of the "
             "level-0 arithmetic macros nat_eval, int_eval, int_const_ineq, real_eval, real_const_eq, real_compare, real_const_ineq, "
             "const_inequality and real_norm: every accepted one-step proof asserts a statement that is true in the typed standard semantics "
-            "(ℕ with truncated subtraction, ℤ, ℚ with x/0 = 0) and is about terms of the type the step is meant for. real_norm "
-            "(convert_to_poly of data/real.py and data/nat.py on top of the polynomial layer proved for C10): an accepted equation holds under "
-            "every assignment of numbers to terms that respects numerals and operators, maximal non-polynomial subterms being opaque "
-            "(real_norm_macro_sound), and acceptance is exactly equality as polynomials over ℚ (real_norm_macro_complete/iff). const_inequality: "
-            "exact branch proved; for the interval branch the combination logic of real_interval_eval (case analysis, guards, which primitive on "
-            "which sub-interval) is proved to return an enclosure whenever the primitives of the interval context do "
-            "(interval_eval_sound_given_enclosures), and the six accept conditions from enclosures are sound and cannot be relaxed. The table of "
-            "all registered macros is the live registry (cross-checked with an AST scan) and every level-0 macro must be classified (decide). "
-            "Ties: differential runs through the real check_proof (all nine macros); real_interval_eval and eval_bounds run with an injected "
-            "exact-rational interval context whose primitive calls are recorded and handed to the model (identical endpoints required); "
-            "eval_inequality_expr with injected enclosures; every accepted sequent judged by an independent exact/high-precision evaluator; every "
-            "numeric function constant of the theory fed to every evaluator.",
-    "note": "Partial / trusted: the enclosure property of mpmath's iv primitives (conversion, + - * / ** abs, exp log sqrt sin cos, pi) is a "
-            "hypothesis of interval_eval_sound_given_enclosures, not proved; the value of a term there is taken in an abstract ordered field with "
-            "the real functions given abstractly. The link from the bounds of BOTH sides to the asserted comparison is intervalAccept "
-            "(interval_accept_sound/tight); the exact-vs-interval branch selection (eval_bounds) is modelled and tied but the end-to-end theorem "
-            "for const_inequality on irrational goals (incl. the polynomial-equality shortcut) is not assembled. real_norm is proved over ℚ "
-            "(polynomial identities over ℚ; real power at integer exponents); real_eq_comparison (builds a proof term through auto) has no Lean "
-            "model and is judged by the oracle only. The model speaks about terms of the theory; goals with a constant at a non-instance of its "
-            "declared type must be rejected (directed stream, fixes/C05-3). Trusted: Lean kernel, propext/Classical.choice/Quot.sound, the C10 "
-            "polynomial files (imported read-only), the harness generators and wire writer, Fraction/mpmath/sympy.",
+            "(ℕ with truncated subtraction, ℤ, ℚ with x/0 = 0) and is about terms of the type the step is meant for; the numeral reader gives the "
+            "standard value for every bit0/bit1 chain, normal form or not (dest_binary_value). real_norm (convert_to_poly on top of the "
+            "polynomial layer proved for C10): sound for every assignment respecting numerals and operators, and acceptance is exactly "
+            "equality as polynomials over ℚ. const_inequality end to end (const_inequality_sound): over any ordered field with abstract real "
+            "functions, if the primitives of the interval context return enclosures and exp/log satisfy exp 0 = 1, log 1 = 0, "
+            "exp(p log x) = x^p, then whenever the model accepts a REL b (exact or interval branch of eval_bounds on either side, the "
+            "polynomial-equality shortcut, any of the six relations) the values satisfy REL; the pieces: tval_of_realEval, "
+            "interval_eval_sound_given_enclosures, poly_eq_tval (K-valued polynomial soundness through MvPolynomial ℕ ℚ), "
+            "interval_accept_sound/tight. The table of all registered macros is the live registry and every level-0 macro must be classified "
+            "(decide). Ties: differential runs through the real check_proof (all nine macros); const_inequality, real_interval_eval and "
+            "eval_bounds run with an injected exact-rational interval context whose primitive calls are recorded and handed to the model "
+            "(identical verdicts / endpoints); eval_inequality_expr with injected enclosures; every accepted sequent judged by an independent "
+            "exact/high-precision evaluator; every numeric function constant of the theory fed to every evaluator.",
+    "note": "Trusted / partial: the enclosure property of mpmath's iv primitives (conversion, + - * / ** abs, exp log sqrt sin cos, pi) and the "
+            "three facts about exp/log (FnsSpec) are hypotheses of const_inequality_sound; the value of a term there (tval) is taken in an "
+            "abstract ordered field with the library's definitions of tan/cot/sec/csc and of real power. const_inequality_exact_sound_partial "
+            "is the older statement about the exact branch in the ℚ semantics (kept; the full model is constInequalityFull). real_norm_macro_sound "
+            "is stated over ℚ (the K-valued version is poly_eq_tval inside const_inequality_sound). real_eq_comparison has no Lean model: it "
+            "builds a proof term, so fixes/C05-4.patch proposes to check it by expansion (level 1), which removes it from the trusted steps; "
+            "until then it is judged by the oracle only. The model speaks about terms of the theory; goals with a constant at a non-instance "
+            "of its declared type must be rejected (directed stream, fixes/C05-3). Trusted: Lean kernel, propext/Classical.choice/Quot.sound, "
+            "the C10 polynomial files (imported read-only), the harness generators and wire writer, Fraction/mpmath/sympy.",
     "design_ref": "DESIGN.md 4/C05",
 }
 FINDINGS = [
